@@ -416,7 +416,7 @@ def run_C07(run):
 # ------------------------------------------------------------------------------------------ C05
 def run_C05(run):
     shards = ["C05/P_C05_w16_%d.v" % k for k in range(8)]
-    run.prove([], ["C05/A_C05_defs.v"], ["C05/P_C05_w8.v", "C05/P_C05_general.v"] + shards, "C05/Properties_C05.v", timeout=1500)
+    run.prove([], ["C05/A_C05_defs.v"], ["C05/P_C05_w8.v", "C05/P_C05_general.v", "C05/P_C05_reverse.v"] + shards, "C05/Properties_C05.v", timeout=1500)
     run.run_corr("impl_C05.cpp", [run.seed, run.tier])
     fails = oracle_sweep(run, "C05", [("all", [])], run.tier, opt="-O1")
     run.fails = run.triage(fails)
